@@ -515,6 +515,16 @@ class Interp:
                     None if grow else subj.maxb,
                 )
             return StrV("str")
+        if mc is not None and mc[1] in ("fullmatch", "match", "search") and isinstance(mc[0], ast.Name) and len(c.args) == 1 and not c.keywords:
+            # <module-level compiled pattern>.fullmatch(<exact text>)
+            ce = self.proj.const_expr(self.fi.module, mc[0].id)
+            if ce is not None and isinstance(ce[1], ast.Call) and (dotted(ce[1].func) or "") == "re.compile" and len(ce[1].args) == 1 and isinstance(ce[1].args[0], ast.Constant) and isinstance(ce[1].args[0].value, str):
+                subj = self.eval(c.args[0], st)
+                if isinstance(subj, StrV) and isinstance(subj.exact, str):
+                    try:
+                        return ObjV("match") if getattr(re.compile(ce[1].args[0].value), mc[1])(subj.exact) is not None else NoneV()
+                    except re.error:
+                        pass
         folded = self._fold_stdlib(c, st)
         if folded is not None:
             return folded
